@@ -102,7 +102,29 @@ def several_simulations_in_one_process(ctx):
     return findings, stats
 
 
+def translate_play(ctx: Ctx) -> bool:
+    """play() and _get_event_callbacks (simulate/base.py), regenerated from the tree under test (fail closed)"""
+    import tr_play
+    from lib.vf import REPO
+    try:
+        files, meta = tr_play.gen(str(REPO))
+    except Exception as e:      # noqa: BLE001
+        ctx.prepare_coq()
+        for f in (ctx.coq / "gen").glob("PlaySrc.*"):
+            f.unlink()
+        ctx.broken.append("translator tools/tr_play.py rejects %s: %s" % (tr_play.SRC, str(e)[:300]))
+        ctx.obligations += 1
+        ctx.cov.setdefault("translators", {})["tr_play"] = {"files": [tr_play.SRC], "rejected": str(e)[:300]}
+        return False
+    for n, t in files.items():
+        ctx.write_gen(n, t)
+    ctx.cov.setdefault("translators", {})["tr_play"] = {"files": [tr_play.SRC], "rejected": None, "functions": meta["functions"]}
+    return True
+
+
 def run(ctx: Ctx, which=WHICH, props=PROPS, assume=None) -> int:
+    if which == "C05":
+        props = list(props) + (["theories/Props/C05_play_src.v"] if translate_play(ctx) else [])
     ec.build_and_check_props(ctx, props)
     budget = ec.Budget(600 if ctx.thorough else 100)
     shards, findings, infos, samples = {}, [], {}, []
